@@ -33,7 +33,7 @@ def plan(tier):
     if tier == "quick":
         base.update({"ncases": 320, "min_nontrivial": 120})
     else:
-        base.update({"ncases": 5000, "min_nontrivial": 2500, "required_counters": {"oracle": 40000}})
+        base.update({"ncases": 25000, "min_nontrivial": 12000, "required_counters": {"oracle": 200000}})
     return base
 
 
